@@ -518,10 +518,121 @@ func racing() h.Scenario {
 	}}
 }
 
+// inflight: a call is inside its first handler (the gate, installed from the start) when another thread adds
+// a handler to the chain the call has not reached yet (client: the IO chain, service: the invoke chain). The
+// call was in flight when the handler was added: it must not pass through it - in any schedule.
+func inflight(side string) h.Scenario {
+	name := "onion/use-while-a-call-is-in-flight/" + side
+	return h.Scenario{Name: name, Quick: 3, Thorough: 4, Run: func(ch vs.Chooser, tr bool) (*vs.Sched, h.Outcome) {
+		var got []string
+		var result string
+		s := vs.Run(ch, vs.Config{Trace: tr}, func() {
+			client, service, server := newPair()
+			_ = server
+			entered := make(chan struct{})
+			added := make(chan struct{})
+			if side == "client" {
+				client.Use(core.InvokeHandler(func(ctx context.Context, n string, args []interface{}, next core.NextInvokeHandler) ([]interface{}, error) {
+					rec("enter gate")
+					vs.Send(entered, struct{}{})
+					vs.Recv(added) // the call stays here until the late handler has been added
+					r, err := next(ctx, n, args)
+					rec("leave gate")
+					return r, err
+				}))
+			} else {
+				service.Use(core.IOHandler(func(ctx context.Context, req []byte, next core.NextIOHandler) ([]byte, error) {
+					rec("enter gate")
+					vs.Send(entered, struct{}{})
+					vs.Recv(added)
+					r, err := next(ctx, req)
+					rec("leave gate")
+					return r, err
+				}))
+			}
+			var wg vs.WaitGroup
+			wg.Add(2)
+			vs.GoFG("caller", func() {
+				defer wg.Done()
+				got, result = call(client)
+			})
+			vs.GoFG("admin", func() {
+				defer wg.Done()
+				vs.Recv(entered)
+				if side == "client" {
+					client.Use(core.IOHandler(cio1))
+				} else {
+					service.Use(core.InvokeHandler(sinv1))
+				}
+				vs.Send(added, struct{}{})
+			})
+			wg.Wait()
+		})
+		var o h.Outcome
+		o.Key = strings.Join(got, ";")
+		if len(s.Hangs) == 0 && !s.Pruned && s.Aborted == "" {
+			want := []string{"enter gate", "fn w", "leave gate"}
+			if strings.Join(got, ";") != strings.Join(want, ";") {
+				o.Viol = append(o.Viol, h.V{Sig: "onion|race|handler-added-during-a-call-runs-in-that-call|" + side, What: fmt.Sprintf("%s: the call was inside its first handler when the handler was added; it passed through %v, expected %v", side, got, want)})
+			}
+			if result != "hello w" {
+				o.Viol = append(o.Viol, h.V{Sig: "onion|race|wrong-result", What: fmt.Sprintf("the call returned %q", result)})
+			}
+		}
+		return s, o
+	}}
+}
+
+// torn: a plugin with an invoke half and an IO half is added (and removed again) while calls run: a call passes
+// through both halves or through neither.
+func torn(side string) h.Scenario {
+	name := "onion/two-sided-plugin-vs-calls/" + side
+	return h.Scenario{Name: name, Quick: 3, Thorough: 4, Run: func(ch vs.Chooser, tr bool) (*vs.Sched, h.Outcome) {
+		var traces [][]string
+		s := vs.Run(ch, vs.Config{Trace: tr}, func() {
+			client, service, server := newPair()
+			_ = server
+			p := &twoSided{"p"}
+			var wg vs.WaitGroup
+			wg.Add(2)
+			vs.GoFG("caller", func() {
+				defer wg.Done()
+				for k := 0; k < 2; k++ {
+					t, _ := call(client)
+					traces = append(traces, t)
+				}
+			})
+			vs.GoFG("admin", func() {
+				defer wg.Done()
+				if side == "client" {
+					client.Use(p)
+					client.Unuse(p)
+				} else {
+					service.Use(p)
+					service.Unuse(p)
+				}
+			})
+			wg.Wait()
+		})
+		var o h.Outcome
+		var keys []string
+		for i, t := range traces {
+			joined := strings.Join(t, ";")
+			keys = append(keys, joined)
+			if strings.Contains(joined, "enter p.inv") != strings.Contains(joined, "enter p.io") {
+				o.Viol = append(o.Viol, h.V{Sig: "onion|race|half-of-a-two-sided-plugin|" + side, What: fmt.Sprintf("%s: call %d passed through %v: one half of the plugin only", side, i, t)})
+			}
+		}
+		sort.Strings(keys)
+		o.Key = strings.Join(keys, " || ")
+		return s, o
+	}}
+}
+
 func main() {
 	mock.RegisterHandler()
 	mock.RegisterTransport()
-	h.Main(ID, []h.Scenario{racing()}, nil,
+	h.Main(ID, []h.Scenario{racing(), inflight("client"), inflight("service"), torn("client"), torn("service")}, nil,
 		h.SeqPart{Name: "bfs", Shards: 32, Run: bfs},
 		h.SeqPart{Name: "allseqs", Shards: 32, Run: allSeqs},
 		h.SeqPart{Name: "aliasing", Shards: 1, Run: aliasing})
